@@ -27,6 +27,9 @@ def jobs(tier, pid='C11', mode=1, config='haswell', defines=(), nmax=None, small
                     if kind == 3 and sk in (3, 4): continue
                     add('fill.s%d.k%d.f%d.p%d' % (sk, kind, f, path), [path, 1, sk, f, kind, 3 if q else 4],
                         'skeleton %d + %d filler bytes (%s) + %d symbolic bytes, path #%d' % (sk, f, KN[kind], 3 if q else 4, path))
+    for f in ([84, 85, 86, 87, 88] if (q or small) else range(60, 100)):
+        for path in (0, 1):
+            add('ws2run.f%d.p%d' % (f, path), [path, 1, 5, f, 0, 3 if q else 4], '{"a" + 3 spaces + ":" + %d spaces + %d symbolic bytes (second whitespace run scanned from the cached bitmap, input ends inside the next block), path #%d' % (f, 3 if q else 4, path))
     return J
 
 
